@@ -7,8 +7,10 @@ import (
 	"io"
 	"log"
 	"os"
+	"os/signal"
 	"runtime"
 	"runtime/debug"
+	"syscall"
 
 	"github.com/sourcegraph/zoekt"
 	"github.com/sourcegraph/zoekt/index"
@@ -31,9 +33,22 @@ type BuildSpec struct {
 	Docs         []Doc
 	Changed      []string // MarkFileAsChangedOrRemoved (delta builds)
 	BranchName   string   // "" = HEAD
+	FsizeLimit   uint64   // >0: RLIMIT_FSIZE while the build runs: writes that would grow a file beyond it fail (EFBIG)
 }
 
 func Version(gen int) string { return fmt.Sprintf("g%d", gen) }
+
+// WithFsizeLimit runs f with the soft RLIMIT_FSIZE set to limit (0 = unchanged).  Process-wide: only for child processes.
+func WithFsizeLimit(limit uint64, f func() error) error {
+	if limit == 0 {
+		return f()
+	}
+	var old syscall.Rlimit
+	syscall.Getrlimit(syscall.RLIMIT_FSIZE, &old)
+	syscall.Setrlimit(syscall.RLIMIT_FSIZE, &syscall.Rlimit{Cur: limit, Max: old.Max})
+	defer syscall.Setrlimit(syscall.RLIMIT_FSIZE, &old)
+	return f()
+}
 
 // RunBuild runs NewBuilder / Add / Finish of the real code, single-threaded (Parallelism 1), without ctags.
 func RunBuild(sp BuildSpec) error {
@@ -107,6 +122,7 @@ func QuietGC() {
 // Everything runs on the main thread (strace's `when=` counters are per thread).
 func ChildMain(handle func(req json.RawMessage) any) {
 	runtime.LockOSThread()
+	signal.Ignore(syscall.SIGXFSZ) // a write beyond RLIMIT_FSIZE then simply fails with EFBIG
 	QuietGC()
 	log.SetOutput(io.Discard)
 	out := bufio.NewWriter(os.Stdout)
